@@ -277,7 +277,8 @@ class Recogniser:
         return out
 
     def r_operator(self, i):
-        return {i + 1} if self.kind(i) == 'op' else set()
+        # % is postfix only (a percent run); two operands need a real operator between them
+        return {i + 1} if self.kind(i) == 'op' and self.t[i][1] != '%' else set()
 
     def r_sign(self, i):
         return {i + 1} if self.is_(i, 'op', '+') or self.is_(i, 'op', '-') else set()
@@ -285,9 +286,13 @@ class Recogniser:
     def r_oneleft(self, i):
         return self.seq(i, 'operand', ('op', '%'), 'oneleft') | self.seq(i, 'operand', ('op', '%'))
 
+    def r_pctrun(self, i):
+        return self.seq(i, ('op', '%'), 'pctrun') | self.seq(i, ('op', '%'))
+
     def r_expr(self, i):
         return (self.seq(i, 'operand', 'operator', 'expr') | self.seq(i, 'sign', 'expr') |
-                self.seq(i, 'oneleft', 'operator', 'expr') | self.ends('oneleft', i) |
+                self.seq(i, 'operand', 'pctrun', 'operator', 'expr') | self.seq(i, 'operand', 'pctrun') |
+                self.seq(i, ('lp',), 'expr', ('rp',), 'pctrun', 'operator', 'expr') | self.seq(i, ('lp',), 'expr', ('rp',), 'pctrun') |
                 self.seq(i, ('lp',), 'expr', ('rp',), 'operator', 'expr') | self.seq(i, ('lp',), 'expr', ('rp',)) |
                 self.ends('operand', i))
 
@@ -427,6 +432,8 @@ def reference_value(toks):
     if c01.triggers(F.fix_parens(F.strip_parens(ast))) or c01.triggers(ast):
         return False, 'c01-open-finding-trigger'
     try:
+        if c01.text_of_computed_fraction(ast, lambda ref: DATA_VALUES.get(ref, F.BLANK)):
+            return False, 'text-of-computed-fraction'
         v = F.Evaluator(lambda ref: DATA_VALUES.get(ref, F.BLANK)).value(ast)
     except F.OutOfDomain as e:
         return False, 'out-of-domain'
